@@ -7,7 +7,7 @@
    stream name=file[=plain] ...              -> OK sample:ctg:codes,... | ERR  (MultiFileIterator per file, non-empty)
    cli <params> name=file[=plain] ...        -> FAIL | OK sample=ctg:letters,...;...   (real CLI)
    shas <params> <n> (n files) (n files) ... -> FAIL | OK <view of the first group> same|diff
-   pairv <params> <n1> files...              -> <view of the first n1 files> | <view of the rest>
+   pairv|pairn <params> <n1> files...        -> <view of the first n1 files> | <view of the rest>
    a file given as name=file=plain is a gzip file whose decompressed content is plain (gunzip oracle) *)
 open Model
 open Util
@@ -67,7 +67,7 @@ let () = run_lines (function
        (match v with
         | Ok _ -> show_view v ^ (if List.for_all (fun x -> x = v) rest then " same" else " MODEL-VIEWS-DIFFER")
         | _ -> show_view v))
-  | "pairv" :: _ :: n :: files ->
+  | ("pairv" | "pairn") :: _ :: n :: files ->
     let fs = List.map file_of files in
     let n = int_of_string n in
     show_view (create_view (take n fs)) ^ " | " ^ show_view (create_view (drop n fs))
